@@ -101,16 +101,26 @@ def run(run):
     proof_canonicity(run)
     shapes = SHAPES_QUICK if run.tier == "quick" else SHAPES_THOROUGH
     table = []
+    # custom-gate families present in the circuit (r range, l logic, f fixed-base, v variable-base):
+    # decoders rebuild per-widget state, so each family is also exercised alone
+    fams = ["rl", "f", "l", "r", "fv"] if run.tier == "quick" else ["rl", "f", "l", "r", "fv", "rlfv", "rf", "lv"]
+    expanded = []
     for shape in shapes:
+        if shape[2]:
+            expanded += [(shape, fam) for fam in (fams if shape == (1, 1, 1) else ["rl"])]
+        else:
+            expanded.append((shape, ""))
+    for shape, fam in expanded:
         args = ["roundtrip"] + [str(x) for x in shape]
-        sb = fw.run_driver(fw.SYM_BIN, args, run.seed)
+        xenv = {"VERIF_CUSTOM": fam} if fam else None
+        sb = fw.run_driver(fw.SYM_BIN, args, run.seed, extra_env=xenv)
         out = sb["outputs"]
         flags = out["flags"]
         row = {"adds": shape[0], "public_inputs": shape[1], "custom_gates": bool(shape[2]),
                "constraints": out["constraints"], "prover_bytes": out["prover_bytes"],
                "verifier_bytes": out["verifier_bytes"], "terms": out.get("nodes_in_arena"), "flags": flags}
         table.append(row)
-        tag = f"n{out['constraints']}_pi{shape[1]}_c{shape[2]}"
+        tag = f"n{out['constraints']}_pi{shape[1]}_c{shape[2]}{fam}"
         if out.get("nodes_in_arena", 0) < 1000:
             run.inconclusive.append(f"{tag}: contents are not symbolic (vacuous run)")
         for f in FLAGS:
@@ -122,12 +132,12 @@ def run(run):
             if v is True:
                 continue
             # replay on the real build (concrete contents derived from the seed)
-            rb = fw.run_driver(fw.REAL_BIN, args, run.seed)
+            rb = fw.run_driver(fw.REAL_BIN, args, run.seed, extra_env=xenv)
             rv = rb["outputs"]["flags"].get(f)
             d = os.path.join(fw.OUT, "cex")
             os.makedirs(d, exist_ok=True)
             path = os.path.join(d, f"C16_{tag}_{f}.json")
-            json.dump({"property": "C16", "driver": args, "seed": run.seed, "flag": f, "symbolic": v, "real": rv,
+            json.dump({"property": "C16", "driver": args, "env": xenv, "seed": run.seed, "flag": f, "symbolic": v, "real": rv,
                        "all_flags_real": rb["outputs"]["flags"], "replayed": rv is not True}, open(path, "w"), indent=1)
             if rv is not True:
                 run.violations.append((f"{tag}/{f}", path))
